@@ -77,6 +77,11 @@ claim("C05",
       "Two threads; data races inside one keyspace call and below (map/slice races under the race detector) are outside the model; pre-emption at locks is context-bounded; native confirmation of a deadlock is a free-running stress (timeout = hang). Bounds in the evidence assumptions.",
       "DESIGN.md C05")
 
+claim("C09",
+      "The real server, AOF engine, preamble store and log store run over in-memory files with os.File semantics (offset, append mode, holes, durability watermark). For every value family (string, integer, list, set, sorted set, hash, volatile key, and a dataset encoding/json refuses) with and without an earlier rewrite, REWRITEAOF is crashed before each of its file operations (the unsynced tail of a file survives as a solver-chosen prefix) or runs to completion; a fresh server restores the image through the real engine and must serve exactly the acknowledged dataset. A writer racing with the rewrite is explored with pre-emption at every lock. The expired-key filter the rewrite applies is checked per database for arbitrary deadlines. encoding/json is modelled (typing rules of interface{} targets, key order, escaping of concrete strings, RFC3339 instants, struct tags) and the model is validated against bytes recorded from the real library.",
+      "Known findings (printed, exit 0): values other than strings and string hashes are re-typed or lost by the JSON preamble; a crash between truncating and syncing the preamble loses it. Metadata operations (truncate) are taken as durable at once; real files and directory entries are not modelled. Bounds in the evidence assumptions.",
+      "DESIGN.md C09")
+
 # every property without a claim is listed as not applicable (yet) with its reason
 NA_REASONS = {}
 for n in range(1, 21):
